@@ -16,6 +16,15 @@ CLAIMED = {
  "C10": ("smx", SMX,
          "Every reporting path (unparseable, plan error, deferred, denied, install with every per-app result vector) for every app-set order, response list (incl. unknown id, manifest version present/absent) and every delivery outcome of each individual report is executed and compared with a reference report list; each faulty execution is also compared with the all-delivered run of the same script (outcome independence).",
          "<=3 apps; zero-app reports and the lost-metric count of multi-app template reports are treated as unspecified; download_time_ms not compared.", "3/C10"),
+ "C16": ("enumx", ENUMX,
+         "An independent generator of the response grammar enumerates every document within 4 (quick) / 5 (thorough) departures from a typical document over all optional fields, counts, status strings, size boundaries, daystart shapes and extension payloads, and the parsed value is compared field by field with what the generator wrote; every required field is removed and every typed field given every wrong JSON type; every prefix and single-bit flip of seed documents, every short token string, near-misses of the XSSI prefix and nesting depths to 100000 (child process) are parsed for totality.",
+         "Documents further than the deviation bound from the typical document, and byte strings outside the listed families, are not reached; serde_json is trusted for JSON syntax.", "3/C16"),
+ "C19": ("enumx", ENUMX,
+         "Complete enumeration of the microsecond boundary family (~11k values) and of the nanosecond neighbourhood of each (2003 offsets each in thorough = 20.8 M instants), pushed through to-micros, from-micros, storage set/get and the truncation helper and compared with an integer-only reference; component algebra and after-or-equal-any over all shapes x order relations.",
+         "Instants far from powers of 2/10 and the epoch are not reached; platform SystemTime/Instant trusted.", "3/C19"),
+ "C20": ("enumx", ENUMX,
+         "Every string over an 8-symbol alphabet up to length 7 (quick) / 8 (thorough), every tuple of 0-6 boundary parts, and all 5.7 M ordered pairs of 2401 boundary versions are judged by an independent 15-line parser / numeric tuple order, including print, parse(print), serde and array conversions.",
+         "Strings outside the alphabet/length bound are not reached; a leading '+' on a part is treated as unspecified.", "3/C20"),
 }
 
 PENDING_REASON = "check under construction in this round (design in DESIGN.md section 3); not claimed until its machinery is committed"
